@@ -224,4 +224,24 @@ example : ValidOp sealDemo.size (.set 3 [122] (.list [.ref 0, .ref 1])) ∧ Vali
     rcases this with rfl | rfl <;> decide
   · show 1 < 4; decide
 
+/-! ### `NoCfgDefaults` is satisfiable on a non-trivial graph (audit round 8, item 6)
+    hypothesis of `sealed_ident_stable_noCfgDefaults`: two configurations, the sealed node 0 refers to node 1 and declares a
+    list default and a scalar default, node 1 declares a dict default; no declared default contains a configuration. -/
+
+def noCfgG : Graph :=
+  { nodes := [{ typeId := [97], sealed := true,
+                args := [{ name := [120], value := .ref 1 },
+                         { name := [121], required := false, default := some (.list [.int 1, .int 2]), value := .list [.int 3] },
+                         { name := [122], required := false, default := some (.int 5), value := .int 5 }] },
+              { typeId := [98], sealed := true,
+                args := [{ name := [123], required := false, default := some (.dict [[107]] [.int 0]), value := .dict [[107]] [.int 9] }] }] }
+
+example : NoCfgDefaults noCfgG := by
+  intro n a ha
+  match n with
+  | 0 => simp [noCfgG, Graph.node] at ha; rcases ha with rfl | rfl | rfl <;> decide
+  | 1 => simp [noCfgG, Graph.node] at ha; subst ha; decide
+  | n + 2 => simp [noCfgG, Graph.node] at ha
+example : (noCfgG.node 0).sealed = true ∧ noCfgG.size = 2 := by decide
+
 end XpmVerif.C14
